@@ -1,4 +1,8 @@
+import LithiumProps.C01
+import LithiumProps.C02
 import LithiumProps.C06
 import LithiumProps.C07
 import LithiumProps.C08
+import LithiumProps.C11
+import LithiumProps.C12
 import LithiumProps.C15
